@@ -1,6 +1,7 @@
 (* C04 property theorems: statements only, each closed by [exact]. *)
 From Coq Require Import NArith ZArith List Bool.
-From LV Require Import Lib.Bytes Wire.CompactSize Wire.Tx Model.C04 Proofs.C04.
+From Coq.Strings Require Import Byte.
+From LV Require Import Lib.Bytes Wire.CompactSize Wire.Tx Model.C04 Proofs.C04 Model.C04_Obj Proofs.C04_Obj.
 Import ListNotations.
 Local Open Scope N_scope.
 
@@ -64,6 +65,58 @@ Theorem C04_input_signature_validates : forall (sha256 : bytes -> bytes) (pub : 
     verify (pub sk) (input_digest sha256 t i script) sg = true.
 Proof. exact input_signature_validates. Qed.
 Print Assumptions C04_input_signature_validates.
+
+(* Object histories.  One signable object held by an output of a fixed transaction (first outpoint fo, holder address
+   addr) goes through ANY history of sign / clear_signature / edit / re-read steps starting from ANY state -- fresh,
+   signed in the current format, or decoded from an earlier release (o_legacy = Some payload).  Once a channel signs
+   it, and as long as only re-reads and edits that leave the serialisation unchanged follow, it validates against that
+   channel; for every scheme with verify (pub sk) d (sign sk d) = true. *)
+Theorem C04_resigned_validates : forall (sha256 : bytes -> bytes) (pub : bytes -> bytes)
+  (sign : bytes -> bytes -> bytes) (verify : bytes -> bytes -> bytes -> bool) (fo addr : bytes),
+  (forall sk d, verify (pub sk) d (sign sk d) = true) ->
+  forall o0 before sk ch after,
+  forallb (keeps (o_msg (orun sha256 sign fo o0 before))) after = true ->
+  obj_valid sha256 verify fo addr (pub sk) (orun sha256 sign fo o0 (before ++ OSign sk ch :: after)) = true.
+Proof. exact resigned_validates. Qed.
+Print Assumptions C04_resigned_validates.
+
+(* ... and what is hashed then is the current-format preimage over the signer's channel hash and the message as it
+   was when signed: nothing of an earlier release's payload survives a new signature. *)
+Theorem C04_resigned_digest_current : forall (sha256 : bytes -> bytes) (sign : bytes -> bytes -> bytes) (fo addr : bytes)
+  o0 before sk ch after,
+  forallb (keeps (o_msg (orun sha256 sign fo o0 before))) after = true ->
+  let o := orun sha256 sign fo o0 (before ++ OSign sk ch :: after) in
+  o_legacy o = None /\ o_ch o = ch /\
+  obj_pieces fo addr o = channel_pieces fo ch (o_msg (orun sha256 sign fo o0 before)).
+Proof. exact resigned_digest_current. Qed.
+Print Assumptions C04_resigned_digest_current.
+
+(* clear_signature: until somebody signs again the object validates against no key at all. *)
+Theorem C04_cleared_never_validates : forall (sha256 : bytes -> bytes) (sign : bytes -> bytes -> bytes)
+  (verify : bytes -> bytes -> bytes -> bool) (fo addr : bytes) o0 before after pk,
+  forallb not_sign after = true ->
+  obj_valid sha256 verify fo addr pk (orun sha256 sign fo o0 (before ++ OClear :: after)) = false.
+Proof. exact cleared_never_validates. Qed.
+Print Assumptions C04_cleared_never_validates.
+
+(* a reader of the transaction reaches the same verdict as the holder of a current-format object *)
+Theorem C04_reread_preserves_current : forall (sha256 : bytes -> bytes) (sign : bytes -> bytes -> bytes)
+  (verify : bytes -> bytes -> bytes -> bool) (fo addr : bytes) o pk,
+  o_legacy o = None ->
+  obj_valid sha256 verify fo addr pk (ostep sha256 sign fo o OReread) = obj_valid sha256 verify fo addr pk o.
+Proof. exact reread_preserves_current. Qed.
+Print Assumptions C04_reread_preserves_current.
+
+(* The behaviour of Output.sign before /repo commit a3011f6 (the legacy marker survives a new signature) is REFUTED
+   by a witness: a scheme satisfying the hypothesis above under which the freshly signed object does not validate. *)
+Theorem C04_old_sign_refuted :
+  (forall sk d, toy_verify sk d (toy_sign sk d) = true) /\
+  obj_valid toy_sha toy_verify [x0a] [x0b] [x07]
+    (ostep_old toy_sha toy_sign [x0a] legacy_start (OSign [x07] [x06])) = false /\
+  obj_valid toy_sha toy_verify [x0a] [x0b] [x07]
+    (ostep toy_sha toy_sign [x0a] legacy_start (OSign [x07] [x06])) = true.
+Proof. exact (conj toy_verify_sign (conj old_sign_refuted new_sign_ok)). Qed.
+Print Assumptions C04_old_sign_refuted.
 
 (* non-vacuity *)
 Example C04_ex_wf : wf_tx sample_tx4.
